@@ -649,7 +649,7 @@ hwloc_backend_synthetic_init(struct hwloc_synthetic_backend_data_s *data,
 	goto error;
     }
 
-    if (count + 1 >= HWLOC_SYNTHETIC_MAX_DEPTH) {
+    if (count + 2 >= HWLOC_SYNTHETIC_MAX_DEPTH) { /* keep room for the NUMA level that may be inserted below */
       if (verbose)
 	fprintf(stderr,"Too many synthetic levels, max %d\n", HWLOC_SYNTHETIC_MAX_DEPTH);
       errno = EINVAL;
